@@ -3,6 +3,7 @@ import Ptn.C09.EnvProps
 import Ptn.C09.GaugeLemmas
 import Ptn.C03.Tree
 import Ptn.C09.Structure
+import Ptn.C09.StepShapes
 import Ptn.C10.Props
 import Ptn.C10.Tree
 import Ptn.Common.AnalysisLocal
@@ -214,9 +215,8 @@ open Ptn.C17 Ptn.C17.RTree in
     gauge machine can tell: no cache lookup fails (every read returns a block of the generation the scheme asks
     for), no assertion about the orthogonality centre fails, `contract_all_children` only ever meets
     basis-change nodes, and at the end no basis-change node and no working copy is left.
-    Missing (hence `_partial`): that the edits of the C02 structural model (`splitNodes`, `contractNodes`,
-    `replaceTensorPermuted`) return a network for every well-formed labelled input - `bug_step_structure_partial`
-    takes the success of the run as a hypothesis; completion of the real code is decided per input by the harness. -/
+    Superseded by `bug_step_completes` (below), which adds what was missing here: the edits of the C02 structural
+    model (`splitNodes`, `contractNodes`, `replaceTensorPermuted`) return a network at every event of the step. -/
 theorem bug_step_completes_partial (fixed : Bool) (t : RTree) (hwf : t.WF) :
     (∀ e ∈ Env.bugRun t, Env.GoodEv e) ∧
     (∀ dir0, ∃ s, Gauge.run (Gauge.start dir0 t) (Gauge.bugEvents fixed t) = some s ∧
@@ -249,9 +249,8 @@ open Ptn.C02 in
     `tensor_qr_decomposition(…, mode=SplitMode.KEEP)` for a leaf): the new rank `bd` is the dimension of the old
     parent leg of `c`.  Then the new basis tensor at `c` has, leg by leg, the dimensions of the old tensor (parent
     side `bd`, children legs and open axes identical) and the basis-change tensor is `bd × bd`.
-    Missing (hence `_partial`): the same statement after the absorption of the basis-change tensor into the
-    parent and for the whole step (the structural theorems below do not track bond dimensions; the harness
-    compares all shapes after every fixed-rank step). -/
+    This is the statement for ONE replacement; `fixed_bug_keeps_shapes` (below) carries it through the absorption
+    and the whole step in the order of the code. -/
 theorem fixed_bug_keeps_shapes_partial {t t1 : TTN} {c b p : Id} {C : NodeS} {bd : Nat} {lab : Label}
     (h : t.WF) (hl : t.LWF) (hfresh : t.N b = none) (hC : t.N c = some C) (hp : C.parent = some p)
     (hqr : t.Leg c p ⟨lab, bd⟩) (hs : bugSplit t c b bd = some t1) :
@@ -307,11 +306,10 @@ open Ptn.C02 in
     final `replace_tensor` of the root; any new ranks): the state stays well-formed and label-consistent; same
     root, same identifiers, same parent of every node, same children up to order; **every node keeps exactly its
     open axes (labels, order, dimensions) - only bond dimensions change**.
-    Missing (hence `_partial`): the code absorbs the basis-change tensors of all children of a node together
-    (`contract_all_children`, after the last child's update) - the literal interleaving, in which basis-change
-    nodes of finished siblings are pending while a later sibling's subtree is edited, is covered event by event
-    (`bug_split_structure`, `bug_absorb_structure`) and by the gauge machine
-    (`bug_step_canonical_at_root`: none is left at the end) but not by one run-level theorem. -/
+    This theorem is about runs in which every basis-change tensor is absorbed at once (hence `_partial`); the
+    literal order of the code - basis-change nodes of finished siblings pending while a later sibling's subtree is
+    edited, `contract_all_children` after the loop - is `bug_step_structure` (below), which also proves that every
+    edit succeeds. -/
 theorem bug_step_structure_partial {t t' : TTN} {es : List BugEvent} (h : t.WF) (hl : t.LWF)
     (hr : BugRun t es t') :
     t'.WF ∧ t'.LWF ∧ t'.root = t.root ∧
@@ -322,14 +320,133 @@ theorem bug_step_structure_partial {t t' : TTN} {es : List BugEvent} (h : t.WF) 
   obtain ⟨w, R, E⟩ := bug_run_wfx (TTN.WFX.ofLWF h hl) hr
   exact ⟨w.wf, w.lwf trivial, R, (treeEq_explicit E).1, (treeEq_explicit E).2, w.op trivial⟩
 
+open Ptn.C17 Ptn.C17.RTree Ptn.C02 in
+/-- **Structure of a BUG step in the order of the code** (both variants, every tree with distinct identifiers, one
+    node included; any ranks `bdim` of the new bases, any leg permutations of the pulls).  `T` lists the children of
+    every node in the order in which `root_update` / `update_node` visit them (`frozenset` order), `t0` is a
+    well-formed, label-consistent network that holds this tree (`Step.Rep`: same root, same parent of every node, the
+    children LIST of every node is the list of its kids up to order); the identifiers `bid c` of the basis-change
+    nodes are unused and pairwise different.  The events are those the gauge machine emits (`Gauge.bugEvents`), every
+    event with its edit of `new_state` on the C02 model (`Step.sEdit`: `replace_tensor` for a pull,
+    `contract_all_children` - the loop over the children list at call time - for `absorb`, a tensor read for
+    `evolve`, `split_node_replace` for `basis`, `replace_tensor` for `store`).  Then
+    * **every structural edit succeeds** and after the whole step nothing is pending, the network is well-formed and
+      label-consistent, has the same root and EXACTLY the structure map it had (identifiers, parent of every node and
+      the children lists, order included - stronger than "up to order") and every node keeps exactly its open axes;
+    * **at every intermediate state** (after every prefix of the event sequence) both machines have run through, the
+      network is well-formed and label-consistent with the same root and open axes, and **the basis-change nodes
+      present are exactly the `pend` of the gauge machine**: for every pending `(c, p)` the node `bid c` hangs below
+      `p` with the single child `c`; a node exists iff it is an original node or `bid c` of a pending `c`; every
+      original node has its original parent - or its basis-change node while that is pending - and its original
+      children list with the pending children replaced, in place, by their basis-change nodes. -/
+theorem bug_step_structure (fixed : Bool) (T : RTree) (hwf : T.WF) {t0 : TTN} (h : t0.WF) (hl : t0.LWF)
+    (hrep : Step.Rep t0 T) (P : Step.Params)
+    (hfresh : ∀ c ∈ ids T, t0.N (P.bid c) = none)
+    (hinj : ∀ c ∈ ids T, ∀ c' ∈ ids T, P.bid c = P.bid c' → c = c')
+    (hperm : ∀ c l, P.perm c = some l →
+      l.Perm (List.range l.length) ∧ ∀ n, t0.N c = some n → l.length = n.nlegs)
+    (dir0 : Nat → Option Nat) :
+    (∃ g' t', Gauge.run (Gauge.start dir0 T) (Gauge.bugEvents fixed T) = some g' ∧
+        Step.sRun P t0 (Gauge.bugEvents fixed T) = some t' ∧ g'.pend = [] ∧
+        t'.WF ∧ t'.LWF ∧ t'.root = t0.root ∧ t'.S = t0.S ∧ (∀ k, t'.openAxes k = t0.openAxes k)) ∧
+    (∀ es₁ es₂, Gauge.bugEvents fixed T = es₁ ++ es₂ →
+      ∃ g t, Gauge.run (Gauge.start dir0 T) es₁ = some g ∧ Step.sRun P t0 es₁ = some t ∧
+        t.WF ∧ t.LWF ∧ t.root = t0.root ∧ (∀ k, t.openAxes k = t0.openAxes k) ∧
+        (∀ e ∈ g.pend, ∃ ch, t0.S e.1 = some (some e.2, ch) ∧ t.S (P.bid e.1) = some (some e.2, [e.1])) ∧
+        (∀ k, t.N k ≠ none ↔ (t0.N k ≠ none ∨ ∃ e ∈ g.pend, k = P.bid e.1)) ∧
+        (∀ k pp ch, t0.S k = some (pp, ch) →
+          t.S k = some (if k ∈ g.pend.map Prod.fst then some (P.bid k) else pp,
+            ch.map fun c => if c ∈ g.pend.map Prod.fst then P.bid c else c))) := by
+  have X : Step.Ctx P t0 (fun x => x ∈ ids T) := ⟨h, hl, hfresh, fun c c' hc hc' => hinj c hc c' hc', hperm⟩
+  obtain ⟨g', t', hT, hp, _, hS⟩ := Step.root_thru T X fixed hwf hrep dir0
+  constructor
+  · obtain ⟨hg, ht⟩ := Step.jrun_split hT.jrun
+    have q := hT.last
+    exact ⟨g', t', hg, ht, hp, q.wfx.wf, q.wfx.lwf trivial, q.root, hS, q.wfx.op trivial⟩
+  · intro es₁ es₂ hes
+    rw [hes] at hT
+    obtain ⟨⟨g, t⟩, hj, q⟩ := hT.pre
+    obtain ⟨hg, ht⟩ := Step.jrun_split hj
+    have q : Step.Q P t0 (fun x => x ∈ ids T) g t := q
+    have hsub : ∀ c, Step.sub P.bid (Step.PD g) c = if c ∈ g.pend.map Prod.fst then P.bid c else c := by
+      intro c
+      by_cases hc : c ∈ g.pend.map Prod.fst
+      · rw [Step.sub_pos (D := Step.PD g) hc, if_pos hc]
+      · rw [Step.sub_neg (D := Step.PD g) hc, if_neg hc]
+    have hsubP : ∀ k pp, Step.subP P.bid (Step.PD g) k pp =
+        if k ∈ g.pend.map Prod.fst then some (P.bid k) else pp := by
+      intro k pp
+      by_cases hc : k ∈ g.pend.map Prod.fst
+      · rw [Step.subP_pos (D := Step.PD g) hc, if_pos hc]
+      · rw [Step.subP_neg (D := Step.PD g) hc, if_neg hc]
+    refine ⟨g, t, hg, ht, q.wfx.wf, q.wfx.lwf trivial, q.root, q.wfx.op trivial, ?_, ?_, ?_⟩
+    · intro e he
+      obtain ⟨_, ch, hpar⟩ := q.par e he
+      exact ⟨ch, hpar, q.pinv.bc e.1 (List.mem_map.mpr ⟨e, he, rfl⟩) e.2 ch hpar⟩
+    · intro k
+      constructor
+      · intro hk
+        by_cases h0 : t0.N k = none
+        · right
+          apply Classical.byContradiction
+          intro hne
+          apply hk
+          apply N_none_of_S
+          refine q.pinv.other k (Step.S_none_of_N' h0) ?_
+          intro c hc e
+          obtain ⟨e', he', rfl⟩ := List.mem_map.mp hc
+          exact hne ⟨e', he', e⟩
+        · exact Or.inl h0
+      · rintro (h0 | ⟨e, he, rfl⟩)
+        · cases hk : t0.N k with
+          | none => exact absurd hk h0
+          | some n =>
+            have := q.pinv.nodes k _ _ (TTN.S_eq hk)
+            intro hn
+            rw [Step.S_none_of_N' hn] at this
+            simp at this
+        · obtain ⟨_, ch, hpar⟩ := q.par e he
+          have := q.pinv.bc e.1 (List.mem_map.mpr ⟨e, he, rfl⟩) e.2 ch hpar
+          intro hn
+          rw [Step.S_none_of_N' hn] at this
+          simp at this
+    · intro k pp ch hk
+      rw [q.pinv.nodes k pp ch hk, hsubP]
+      congr 2
+      exact List.map_congr_left fun c _ => hsub c
+
+open Ptn.C17 Ptn.C17.RTree Ptn.C02 in
+/-- **A step completes on every tree** (one node included), both variants: no cache lookup fails (every read
+    returns a block of the generation the scheme asks for), no assertion about the orthogonality centre fails,
+    `contract_all_children` only ever meets basis-change nodes, no basis-change node and no working copy is left,
+    and **every edit of `new_state` succeeds on the C02 model** of `TreeTensorNetwork` - `replace_tensor`,
+    `contract_nodes`, `split_node_replace` never take an exception branch - for every well-formed, label-consistent
+    network that holds the tree, any new ranks and any leg permutations of the pulls (the hypotheses are those of
+    `bug_step_structure`: what `basis_change_tensor_id` / `relative_leg_permutation` guarantee).  What stays outside:
+    the numerical routines (QR, `expm`, the contractions of the effective Hamiltonian) are not modelled. -/
+theorem bug_step_completes (fixed : Bool) (T : RTree) (hwf : T.WF) {t0 : TTN} (h : t0.WF) (hl : t0.LWF)
+    (hrep : Step.Rep t0 T) (P : Step.Params)
+    (hfresh : ∀ c ∈ ids T, t0.N (P.bid c) = none)
+    (hinj : ∀ c ∈ ids T, ∀ c' ∈ ids T, P.bid c = P.bid c' → c = c')
+    (hperm : ∀ c l, P.perm c = some l →
+      l.Perm (List.range l.length) ∧ ∀ n, t0.N c = some n → l.length = n.nlegs) :
+    (∀ e ∈ Env.bugRun T, Env.GoodEv e) ∧
+    (∀ dir0, ∃ s, Gauge.run (Gauge.start dir0 T) (Gauge.bugEvents fixed T) = some s ∧
+      s.pend = [] ∧ s.frames = [T.rid]) ∧
+    (∃ t', Step.sRun P t0 (Gauge.bugEvents fixed T) = some t' ∧ t'.WF ∧ t'.LWF) := by
+  refine ⟨Env.bug_env_sources T hwf, fun dir0 => ?_, ?_⟩
+  · obtain ⟨s, h1, _, _, h4, h5, _⟩ := Gauge.root_runs fixed T hwf dir0
+    exact ⟨s, h1, h4, h5⟩
+  · obtain ⟨⟨_, t', _, ht, _, w, l, _⟩, _⟩ :=
+      bug_step_structure fixed T hwf h hl hrep P hfresh hinj hperm (fun _ => none)
+    exact ⟨t', ht, w, l⟩
+
 /-- **No bond above the configured maximum after the truncation pass** - for the selection rule.  Every
     truncation of `recursive_truncation` keeps, of a non-empty descending non-negative spectrum, a prefix of
     length between 1 and `max_bond_dim` (`Ptn.C10.trunc_is_prefix`); that length is the dimension of the bond
     after `truncate_node`.
-    Missing (hence `_partial`): that the bond dimensions of the returned state ARE these lengths (the C02 model
-    of `recursive_truncation`, `Ptn.C10.recursive_truncation_structure`, takes the kept dimensions as parameters
-    and proves structure and open axes, not bond dimensions; the final `canonical_form` uses reduced QRs, which
-    never enlarge a bond); decided per input by the harness. -/
+    This is the selection rule alone (hence `_partial`); that the bonds of the returned state ARE these lengths is
+    `rank_adaptive_bonds_le` (below, through `Ptn.C10.recursive_truncation_bonds_le`). -/
 theorem rank_adaptive_bonds_le_partial (s : List Rat) (p : Ptn.C10.Params) (D : Nat) (hs : s ≠ [])
     (hnn : Ptn.C10.NonNeg s) (hd : Ptn.C10.Desc s) (hp : p.Valid) (hD : p.maxBond = some D) :
     ∃ kept disc, Ptn.C10.truncate s p = some (kept, disc) ∧ 1 ≤ kept.length ∧ kept.length ≤ D := by
@@ -338,6 +455,100 @@ theorem rank_adaptive_bonds_le_partial (s : List Rat) (p : Ptn.C10.Params) (D : 
   rcases hcase with ⟨_, ht⟩ | ⟨_, _, ht⟩
   · exact ⟨_, _, ht, by simp; omega, by simp; omega⟩
   · exact ⟨_, _, ht, by simp; omega, by simp; omega⟩
+
+open Ptn.C17 Ptn.C17.RTree Ptn.C02 in
+/-- **Fixed-rank BUG keeps ALL shapes, through the whole step.**  The step of `bug_step_structure` in the fixed-rank
+    variant (`fixed = true`: `KEEP`-mode centre moves, no augmentation), under the one contract of the external QR
+    the code itself asserts (`assert new_basis_tensor.shape == updated_tensor.shape` in
+    `compute_fixed_size_new_basis_tensor`; `tensor_qr_decomposition(…, mode=SplitMode.KEEP)` for a leaf): the rank
+    `bdim c` of every new basis is the dimension of the old parent leg of `c`.  Then the step runs through and in
+    the returned network - same root, same structure map - EVERY virtual leg of EVERY node has the dimension of the
+    same leg before the step, every node has exactly its open axes, hence **the recorded shape of every node
+    (`Node.shape`, all legs in order) equals its shape before the step**.  The bond dimensions are followed event by
+    event: the new bond `c - bid c` gets the old dimension, the basis-change node keeps the old parent leg, the
+    absorption `contract_nodes(p, bid c)` hands the leg of `c` over to `p` (`Step.DimInvD`, an invariant of EVERY
+    intermediate state: both bonds next to a pending basis-change node have the old dimension). -/
+theorem fixed_bug_keeps_shapes (T : RTree) (hwf : T.WF) {t0 : TTN} (h : t0.WF) (hl : t0.LWF)
+    (hrep : Step.Rep t0 T) (P : Step.Params)
+    (hfresh : ∀ c ∈ ids T, t0.N (P.bid c) = none)
+    (hinj : ∀ c ∈ ids T, ∀ c' ∈ ids T, P.bid c = P.bid c' → c = c')
+    (hperm : ∀ c l, P.perm c = some l →
+      l.Perm (List.range l.length) ∧ ∀ n, t0.N c = some n → l.length = n.nlegs)
+    (hkeep : ∀ c ∈ ids T, ∀ p ch ax0, t0.S c = some (some p, ch) → t0.Leg c p ax0 → P.bdim c = ax0.dim) :
+    (∃ t', Step.sRun P t0 (Gauge.bugEvents true T) = some t' ∧ t'.WF ∧ t'.LWF ∧ t'.root = t0.root ∧
+      t'.S = t0.S ∧ (∀ k, t'.openAxes k = t0.openAxes k) ∧
+      (∀ k x ax, t'.Leg k x ax → ∃ ax0, t0.Leg k x ax0 ∧ ax0.dim = ax.dim) ∧
+      (∀ k n, t0.N k = some n → ∃ n', t'.N k = some n' ∧ n'.parent = n.parent ∧ n'.children = n.children ∧
+        n'.shape = n.shape)) ∧
+    (∀ es₁ es₂, Gauge.bugEvents true T = es₁ ++ es₂ →
+      ∃ g t, Gauge.run (Gauge.start (fun _ => none) T) es₁ = some g ∧ Step.sRun P t0 es₁ = some t ∧
+        ∀ c p ch ax0, t0.S c = some (some p, ch) → t0.Leg c p ax0 →
+          (c ∉ g.pend.map Prod.fst → ∃ ax, t.Leg c p ax ∧ ax.dim = ax0.dim) ∧
+          (c ∈ g.pend.map Prod.fst → (∃ ax, t.Leg c (P.bid c) ax ∧ ax.dim = ax0.dim) ∧
+            ∃ ax, t.Leg (P.bid c) p ax ∧ ax.dim = ax0.dim)) := by
+  have X : Step.Ctx P t0 (fun x => x ∈ ids T) := ⟨h, hl, hfresh, fun c c' hc hc' => hinj c hc c' hc', hperm⟩
+  obtain ⟨g', t', hT, hp, _, hS⟩ := Step.root_thru T X true hwf hrep (fun _ => none)
+  obtain ⟨_, ht⟩ := Step.jrun_split hT.jrun
+  have q : Step.Q P t0 (fun x => x ∈ ids T) g' t' := hT.last
+  have hK : Step.KeepRanks P t0 (fun x => x ∈ ids T) := fun c p ch ax0 hc hS0 hl0 => hkeep c hc p ch ax0 hS0 hl0
+  have hnp : ∀ c, ¬ Step.PD g' c := by intro c hc; simp [Step.PD, hp] at hc
+  have hpar : ∀ c p ch ax0, t0.S c = some (some p, ch) → t0.Leg c p ax0 →
+      ∃ ax, t'.Leg c p ax ∧ ax.dim = ax0.dim := fun c p ch ax0 hS0 hl0 =>
+    (q.dim hK c p ch ax0 hS0 hl0).1 (hnp c)
+  have w' := q.wfx.wf
+  have l' := q.wfx.lwf trivial
+  have hlegs := Step.legs_of_parent_legs h hl w' l' hS hpar
+  refine ⟨⟨t', ht, w', l', q.root, hS, q.wfx.op trivial, hlegs, ?_⟩, ?_⟩
+  · intro k n hn
+    obtain ⟨n', hn', e1, e2⟩ := (S_eq_explicit hS).2 k n hn
+    exact ⟨n', hn', e1, e2, Step.shape_eq_of_legs h w' hn hn' e1 e2 (hlegs k) (q.wfx.op trivial k)⟩
+  · intro es₁ es₂ hes
+    rw [hes] at hT
+    obtain ⟨⟨g, t⟩, hj, q1⟩ := hT.pre
+    obtain ⟨hg, ht1⟩ := Step.jrun_split hj
+    have q1 : Step.Q P t0 (fun x => x ∈ ids T) g t := q1
+    exact ⟨g, t, hg, ht1, q1.dim hK⟩
+
+open Ptn.C17 Ptn.C17.RTree Ptn.C02 in
+/-- **No bond above `max_bond_dim` in the state a rank-adaptive step returns** (structural model).  The step of
+    `bug_step_structure` with the augmented bases (`fixed = false`, any new ranks `bdim` - they may exceed the
+    maximum) runs through and yields a well-formed, label-consistent network `t1`; `recursive_truncation` on it (C02
+    model `recursiveTruncation`, run with the numbers of singular values the selection model of C10 keeps:
+    `spec c` = any non-empty, non-negative, descending spectrum for the bond above `c`, `p` any valid parameter
+    object with `max_bond_dim = D`) returns, whenever it returns, a well-formed, label-consistent network with the
+    root, the structure map and the open axes of the state BEFORE the step in which EVERY virtual leg of EVERY node
+    has a dimension between 1 and `D` - the bond above the non-root node `c` has exactly dimension
+    `keptDim (spec c) p` (`Ptn.C10.recursive_truncation_bonds_le`, which discharges the connection between the kept
+    counts and the bonds that `rank_adaptive_bonds_le_partial` lacked).
+    Premise kept explicit: that the truncation pass returns (C10 has no progress theorem for `insert_identity`; the
+    step itself is proved to return).  Not modelled: the `canonical_form` sweeps before / after the pass (reduced
+    QRs; `rank_adaptive_truncation_keeps_canonical` is the gauge statement). -/
+theorem rank_adaptive_bonds_le (T : RTree) (hwf : T.WF) {t0 : TTN} (h : t0.WF) (hl : t0.LWF)
+    (hrep : Step.Rep t0 T) (P : Step.Params)
+    (hfresh : ∀ c ∈ ids T, t0.N (P.bid c) = none)
+    (hinj : ∀ c ∈ ids T, ∀ c' ∈ ids T, P.bid c = P.bid c' → c = c')
+    (hperm : ∀ c l, P.perm c = some l →
+      l.Perm (List.range l.length) ∧ ∀ n, t0.N c = some n → l.length = n.nlegs)
+    (spec : Id → List Rat) (p : Ptn.C10.Params) (D : Nat) (hp : p.Valid) (hD : p.maxBond = some D)
+    (hspec : ∀ c, spec c ≠ [] ∧ Ptn.C10.NonNeg (spec c) ∧ Ptn.C10.Desc (spec c)) :
+    ∃ t1, Step.sRun P t0 (Gauge.bugEvents false T) = some t1 ∧ t1.WF ∧ t1.LWF ∧
+      ∀ t2, t1.recursiveTruncation (fun c => Ptn.C10.keptDim (spec c) p) = some t2 →
+        t2.WF ∧ t2.LWF ∧ t2.root = t0.root ∧ t2.S = t0.S ∧ (∀ k, t2.openAxes k = t0.openAxes k) ∧
+        (∀ k x ax, t2.Leg k x ax → ∃ c, (c = k ∨ c = x) ∧ ax.dim = Ptn.C10.keptDim (spec c) p) ∧
+        (∀ k x ax, t2.Leg k x ax → 1 ≤ ax.dim ∧ ax.dim ≤ D) ∧
+        (∀ e ∈ t2.nodes, ∀ q ∈ t2.legPairs e.1, q.2.dim ≤ D) := by
+  obtain ⟨⟨_, t1, _, ht, _, w1, l1, R1, S1, O1⟩, _⟩ :=
+    bug_step_structure false T hwf h hl hrep P hfresh hinj hperm (fun _ => none)
+  refine ⟨t1, ht, w1, l1, ?_⟩
+  intro t2 hs
+  obtain ⟨hk, ⟨w2, l2, R2, _, O2⟩, hb, hle⟩ :=
+    Ptn.C10.recursive_truncation_bonds_le spec p D hp hD hspec w1 l1 hs
+  obtain ⟨_, _, _, S2, _⟩ := recursive_truncation_labels w1 l1 hs
+  refine ⟨w2, l2, R2.trans R1, S2.trans S1, fun k => (O2 k).trans (O1 k), hb, ?_, hle⟩
+  intro k x ax hleg
+  obtain ⟨c, _, e⟩ := hb k x ax hleg
+  rw [e]
+  exact ⟨(hk c).1, (hk c).2.1⟩
 
 /-! ### Non-vacuity: root 0 with children 1 (leaf) and 2 (with child 3) -/
 
@@ -405,6 +616,118 @@ example : ∃ t t1 t2 t3 t4, TRun TTN.empty netOps t ∧ bugSplit t 2 50 2 = som
     t4.S 1 = some (none, [2, 3]) :=
   ⟨_, _, _, _, _, .cons ⟨rfl, rfl⟩ rfl (.cons trivial rfl (.cons trivial rfl (.nil _))),
     rfl, rfl, rfl, rfl, rfl, rfl, rfl, rfl, rfl⟩
+
+/-! #### the step in the order of the code: root `0` with the children list `[1, 2]`, node `2` with the child `3`;
+the recursion visits `2` (and `3`) BEFORE `1` - the visiting order is not the order of the children list -/
+
+open Ptn.C02 in
+def netOps2 : List TOp :=
+  [.root 0 [⟨0, 2⟩, ⟨100, 3⟩, ⟨101, 2⟩],
+   .child 1 [⟨100, 3⟩, ⟨1, 2⟩] 0 0 1,
+   .child 2 [⟨101, 2⟩, ⟨2, 2⟩, ⟨102, 2⟩] 0 0 2,
+   .child 3 [⟨102, 2⟩, ⟨3, 2⟩] 0 2 2]
+
+def exT2 : Ptn.C17.RTree := .node 0 [.node 2 [.node 3 []], .node 1 []]
+
+/-- basis-change node of `c` is `50 + c`; new ranks 2 (above `1`, was 3), 3 (above `2`, was 2), 4 (above `3`, was 2);
+    the pull of the root comes with a non-trivial leg permutation -/
+def exP2 : Step.Params := ⟨fun c => 50 + c, fun c => c + 1, fun c => if c = 0 then some [0, 2, 1] else none⟩
+
+open Ptn.C02 Ptn.C17 Ptn.C17.RTree in
+/-- the hypotheses of `bug_step_structure` / `bug_step_completes` hold for this network, tree and parameters; before
+    `absorb 0` (after 12 of the 15 events) the basis-change nodes `52` (made first) and `51` are BOTH pending below the
+    root, at the positions of `2` and `1` in its children list; after the step the children list is `[1, 2]` again -/
+example : ∃ t, TRunL TTN.empty netOps2 t ∧ t.WF ∧ t.LWF ∧ exT2.WF ∧ Step.Rep t exT2 ∧
+    (∀ c ∈ ids exT2, t.N (exP2.bid c) = none) ∧
+    (∀ c ∈ ids exT2, ∀ c' ∈ ids exT2, exP2.bid c = exP2.bid c' → c = c') ∧
+    (∀ c l, exP2.perm c = some l →
+      l.Perm (List.range l.length) ∧ ∀ n, t.N c = some n → l.length = n.nlegs) ∧
+    (Gauge.bugEvents false exT2).length = 15 ∧
+    ((Gauge.run (Gauge.start (fun _ => none) exT2) ((Gauge.bugEvents false exT2).take 12)).map (·.pend)) =
+      some [(2, 0), (1, 0)] ∧
+    ((Step.sRun exP2 t ((Gauge.bugEvents false exT2).take 12)).map fun t' => (t'.S 0, t'.S 52, t'.S 51, t'.S 2)) =
+      some (some (none, [51, 52]), some (some 0, [2]), some (some 0, [1]), some (some 52, [3])) ∧
+    ((Step.sRun exP2 t (Gauge.bugEvents false exT2)).map fun t' => (t'.S 0, t'.S 52, t'.S 2)) =
+      some (some (none, [1, 2]), none, some (some 0, [3])) := by
+  have hrun : TRunL TTN.empty netOps2 _ :=
+    .cons ⟨rfl, rfl⟩ trivial rfl (.cons trivial ⟨_, rfl, rfl⟩ rfl (.cons trivial ⟨_, rfl, rfl⟩ rfl
+      (.cons trivial ⟨_, rfl, rfl⟩ rfl (.nil _))))
+  refine ⟨_, hrun, (builtL_labels hrun).1, (builtL_labels hrun).2, by decide, ?_, ?_, ?_, ?_, by decide,
+    by decide, rfl, rfl⟩
+  · simp only [Step.Rep, exT2, Step.repAt_node, Step.repL_cons, Step.repL_nil, and_true]
+    exact ⟨⟨[1, 2], rfl, by decide⟩, ⟨⟨[3], rfl, by decide⟩, ⟨[], rfl, by decide⟩⟩, ⟨[], rfl, by decide⟩⟩
+  · intro c hc
+    have : c = 0 ∨ c = 2 ∨ c = 3 ∨ c = 1 := by simpa [exT2, ids, idsL] using hc
+    rcases this with rfl | rfl | rfl | rfl <;> rfl
+  · intro c _ c' _ e
+    have e' : 50 + c = 50 + c' := e
+    omega
+  · intro c l hl
+    simp only [exP2] at hl
+    split at hl
+    · rename_i hc
+      subst hc
+      simp only [Option.some.injEq] at hl
+      subst hl
+      refine ⟨by decide, ?_⟩
+      intro n hn
+      have : n = ⟨[1, 2, 0], [2, 3, 2], none, [1, 2]⟩ := by
+        have h0 : _ = some n := hn
+        exact (Option.some.inj h0).symm
+      subst this
+      rfl
+    · cases hl
+
+/-- fixed rank on the same network: every new basis has the old bond dimension (3 above `1`, 2 above `2` and `3`) -/
+def exP2k : Step.Params :=
+  ⟨fun c => 50 + c, fun c => if c = 1 then 3 else 2, fun c => if c = 0 then some [0, 2, 1] else none⟩
+
+set_option maxRecDepth 16384 in
+open Ptn.C02 Ptn.C17 Ptn.C17.RTree in
+/-- the additional hypothesis of `fixed_bug_keeps_shapes` holds (the other ones do not depend on the ranks: see the
+    example above), the step runs through and all four recorded shapes are the ones before the step -/
+example : ∃ t, TRunL TTN.empty netOps2 t ∧
+    (∀ c ∈ ids exT2, ∀ p ch ax0, t.S c = some (some p, ch) → t.Leg c p ax0 → exP2k.bdim c = ax0.dim) ∧
+    ([0, 1, 2, 3].map fun k => (t.N k).map NodeS.shape) =
+      [some [3, 2, 2], some [3, 2], some [2, 2, 2], some [2, 2]] ∧
+    ((Step.sRun exP2k t (Gauge.bugEvents true exT2)).map fun t' =>
+      [0, 1, 2, 3].map fun k => (t'.N k).map NodeS.shape) =
+      some [some [3, 2, 2], some [3, 2], some [2, 2, 2], some [2, 2]] := by
+  refine ⟨_, .cons ⟨rfl, rfl⟩ trivial rfl (.cons trivial ⟨_, rfl, rfl⟩ rfl (.cons trivial ⟨_, rfl, rfl⟩ rfl
+      (.cons trivial ⟨_, rfl, rfl⟩ rfl (.nil _)))), ?_, rfl, rfl⟩
+  intro c hc p ch ax0 _ hleg
+  have hc' : c = 0 ∨ c = 2 ∨ c = 3 ∨ c = 1 := by simpa [exT2, ids, idsL] using hc
+  rcases hc' with rfl | rfl | rfl | rfl
+  · have hl' : (p, ax0) ∈ [((1 : Id), (⟨100, 3⟩ : Axis)), (2, ⟨101, 2⟩)] := hleg
+    have hS' : some ((none : Option Id), [(1 : Id), 2]) = some (some p, ch) := by assumption
+    cases hS'
+  · have hl' : (p, ax0) ∈ [((0 : Id), (⟨101, 2⟩ : Axis)), (3, ⟨102, 2⟩)] := hleg
+    simp only [List.mem_cons, Prod.mk.injEq, List.mem_nil_iff, or_false] at hl'
+    rcases hl' with ⟨_, rfl⟩ | ⟨_, rfl⟩ <;> rfl
+  · have hl' : (p, ax0) ∈ [((2 : Id), (⟨102, 2⟩ : Axis))] := hleg
+    simp only [List.mem_cons, Prod.mk.injEq, List.mem_nil_iff, or_false] at hl'
+    obtain ⟨_, rfl⟩ := hl'
+    rfl
+  · have hl' : (p, ax0) ∈ [((0 : Id), (⟨100, 3⟩ : Axis))] := hleg
+    simp only [List.mem_cons, Prod.mk.injEq, List.mem_nil_iff, or_false] at hl'
+    obtain ⟨_, rfl⟩ := hl'
+    rfl
+
+set_option maxRecDepth 16384 in
+open Ptn.C02 in
+/-- `rank_adaptive_bonds_le` on the same network: the step raises the bonds above `2` and `3` to 3 and 4; the
+    truncation pass with `max_bond_dim = 2` on the spectra `[4, 2, 1]` returns and leaves every bond with dimension 2 -/
+example : ∃ t t1 t2, TRunL TTN.empty netOps2 t ∧ Step.sRun exP2 t (Gauge.bugEvents false exT2) = some t1 ∧
+    t1.legPairs 2 = [(0, ⟨1000001, 3⟩), (3, ⟨1000000, 4⟩)] ∧
+    (Ptn.C10.exP (some 2) (.fin 0) (.fin 0) false false true).Valid ∧
+    Ptn.C10.Desc [4, 2, 1] ∧ Ptn.C10.NonNeg [4, 2, 1] ∧
+    t1.recursiveTruncation (fun _ => Ptn.C10.keptDim [4, 2, 1]
+      (Ptn.C10.exP (some 2) (.fin 0) (.fin 0) false false true)) = some t2 ∧
+    (t2.legPairs 2).map (fun q => (q.1, q.2.dim)) = [(0, 2), (3, 2)] ∧
+    (t2.legPairs 0).map (fun q => (q.1, q.2.dim)) = [(1, 2), (2, 2)] :=
+  ⟨_, _, _, .cons ⟨rfl, rfl⟩ trivial rfl (.cons trivial ⟨_, rfl, rfl⟩ rfl (.cons trivial ⟨_, rfl, rfl⟩ rfl
+      (.cons trivial ⟨_, rfl, rfl⟩ rfl (.nil _)))), rfl, by decide +kernel, by decide +kernel, by decide +kernel,
+    by decide +kernel, rfl, by decide +kernel, by decide +kernel⟩
 
 /-- hypotheses of `rank_adaptive_bonds_le_partial`: a valid parameter object with `max_bond_dim = 2` on the
     spectrum `[4, 2, 1]` keeps two values -/
